@@ -136,6 +136,38 @@ func cmdC05(r *RNG, n int, e *Emitter, args []string) {
 		takeDiscards()
 		S := []float64{40, 80, 200, 1000}[r.Intn(4)]
 		in, split, sign := genSimpleSetGroupsSign(r, S)
+		if r.Intn(6) == 0 {
+			// a needle: a triangle or quadrilateral with an interior angle below 2.5 degrees (edge normals
+			// nearly anti-parallel), in any of the 8 lattice orientations, either orientation
+			L := int64(S) * (8 + r.Range(0, 8))
+			h := r.Range(2, L/30)
+			nd := clip.Path64{{X: 0, Y: 0}, {X: L, Y: 0}, {X: L, Y: h}}
+			if r.Intn(3) == 0 {
+				nd = clip.Path64{{X: 0, Y: 0}, {X: L, Y: -h / 2}, {X: L + int64(S), Y: 0}, {X: L, Y: h / 2}}
+			}
+			for j := range nd {
+				x, y := nd[j].X, nd[j].Y
+				switch i % 4 {
+				case 1:
+					x, y = -y, x
+				case 2:
+					x, y = -x, -y
+				case 3:
+					x, y = y, -x
+				}
+				nd[j] = clip.Point64{X: x, Y: y}
+			}
+			if clip.Area64(nd) < 0 {
+				nd = clip.ReversePath(nd)
+			}
+			sign = 1
+			if r.Intn(3) == 0 {
+				nd = clip.ReversePath(nd)
+				sign = -1
+			}
+			in, split = clip.Paths64{nd}, 0
+			e.Count("shape=needle")
+		}
 		jt := clip.JoinType(r.Intn(4))
 		miter := []float64{1, 2, 2, 3, 5}[r.Intn(5)]
 		arct := []float64{0, 0, 0.25, 1, 3}[r.Intn(5)]
